@@ -103,11 +103,14 @@ Apply(recs, a, keys) ==
     [] a.op = "attr_write"     -> AttrWrite(recs, a.id, a.key, a.val)
     [] a.op = "delete_attr"    -> DeleteAttr(recs, a.id, a.key)
     [] a.op = "patch"          -> Patch(recs, a.id, a.patch)
+    \* save of a repeater the storage does not hold (create_repeater(address_in = a.addr), then save with a.patch): the object is
+    \* patched and handed back, no record is added - records enter by an auto-creating lookup only (ret 0: not a record of the storage)
+    [] a.op = "save_new"       -> Result(recs, 0, NoneV, "ok")
 
 \* an action that names a record must name an existing one (the caller holds the object);
 \* match_uuid may also ask for an unknown id
 Enabled(recs, a) ==
-  \/ a.op \in {"match_incoming", "match_attr", "match_ip", "match_uuid"}
+  \/ a.op \in {"match_incoming", "match_attr", "match_ip", "match_uuid", "save_new"}
   \/ IdxOfId(recs, a.id) # 0
 
 \* ------------------------------------------------------------------ the property (P level)
@@ -180,6 +183,11 @@ StepOK(recs, a, r, keys) ==
   /\ FreshRecordHasOnlyNamedAttributes(recs, a, r, keys)
   /\ LookupNeverGrows(recs, a, r)
 
+\* "one record per source address": a step does not make two records carry the same incoming address (judged at the step that
+\* does it, last of all clauses; not part of StepOK - the design model mirrors the code, which lets a patch of address_in do it)
+Shared(rs) == \E i, j \in 1..Len(rs) : i # j /\ rs[i].f["address_in"] = rs[j].f["address_in"]
+OneRecordPerAddress(recs, r) == Shared(r.recs) => Shared(recs)
+
 \* name of the first clause that fails (used by trace validation for total verdicts)
 WhyNot(recs, a, r, keys) ==
   IF ~IdsUnique(r.recs) THEN "IdsUnique"
@@ -189,5 +197,6 @@ WhyNot(recs, a, r, keys) ==
   ELSE IF ~PatchApplied(recs, a, r, keys) THEN "PatchApplied"
   ELSE IF ~FreshRecordHasOnlyNamedAttributes(recs, a, r, keys) THEN "FreshRecordHasOnlyNamedAttributes"
   ELSE IF ~LookupNeverGrows(recs, a, r) THEN "LookupNeverGrows"
+  ELSE IF ~OneRecordPerAddress(recs, r) THEN "OneRecordPerAddress"
   ELSE "ok"
 =============================================================================
